@@ -89,6 +89,10 @@ P2P_DGRAMS = {
     "SHORT": b"\x01\x02",
     "EMPTY": b"",
     "LONG": b"\xaa" * 40,
+    # not commands (no P2P prefix, no ping signature) that carry a request type octet at the offset the dispatcher reads it from
+    "NONCMD_T10": b"ZZZZ" + bytes(16) + b"\x10" + bytes(range(11)),
+    "NONCMD_T11": b"\xaa" * 20 + b"\x11" + bytes(range(11)),
+    "NONCMD_T12": b"ZZZZ" + bytes(16) + b"\x12" + bytes(range(15)),
 }
 # the same requests with the counter octet (offset 4) at its maximum: the handlers add 1 to it.  What a handler does with such a
 # request is its own business (the statement is a safety statement), but it must not leave the source *registered* unless the
@@ -438,7 +442,7 @@ class RDACSystem(explore.System):
     def key(self):
         snap = storage_snapshot(self.storage, RDAC_ATTRS)
         recs = tuple(sorted((d["address_in"], d["dmr_id"], d["callsign"], d["serial"], tuple(sorted((k, repr(v)) for k, v in d["attrs"].items()))) for d in snap.values()))
-        return (tuple(sorted(self.impl.step.items())), tuple(sorted(self.mstep.items())), tuple(sorted(self.mdone.items())), recs, len(self.done),
+        return (tuple(sorted(((repr(k_), v_) for k_, v_ in self.impl.step.items()))), tuple(sorted(self.mstep.items())), tuple(sorted(self.mdone.items())), recs, len(self.done),
                 repr(canon(self.impl, skip=IMPL_SKIP)))
 
 
